@@ -735,6 +735,39 @@ func (c *Ctx) Preprocess(asserts []string, usedDefs map[string]string, lite bool
 	for name, body := range usedDefs {
 		ic.defs[name] = parseSx(body)
 	}
+	// constants of narrower bit-vector sorts that occur in the query (hashes, counters,
+	// lengths of fixed-width fields) are instantiation candidates for bound variables
+	// of their sort, like the Skolem constants
+	{
+		seenAtom := map[string]bool{}
+		var walk func(n *sx)
+		walk = func(n *sx) {
+			if n.list == nil {
+				if seenAtom[n.atom] {
+					return
+				}
+				seenAtom[n.atom] = true
+				if i, ok := c.declIdx[n.atom]; ok && len(c.decls[i].args) == 0 {
+					if s := c.decls[i].ret; s.IsBV() && string(s) != bv64Sort {
+						ic.otherSort[string(s)] = append(ic.otherSort[string(s)], &sx{atom: n.atom})
+					}
+				}
+				return
+			}
+			for _, ch := range n.list {
+				walk(ch)
+			}
+		}
+		for _, t := range trees {
+			walk(t)
+		}
+		for _, d := range ic.defs {
+			walk(d)
+		}
+		for k := range ic.otherSort {
+			sort.Slice(ic.otherSort[k], func(i, j int) bool { return ic.otherSort[k][i].atom < ic.otherSort[k][j].atom })
+		}
+	}
 	// pass 1: Skolemise
 	for i, t := range trees {
 		trees[i] = ic.process(t, true, 0, false)
